@@ -2,6 +2,8 @@
    Model: Model/HttpReader.v. "honest" server: when it answers it sends bytes of the requested range
    (complete, cut by a transfer failure after any prefix, or ending early), or refuses the connection. *)
 From Bita Require Import Model.Base Model.HttpReader Proofs.Readers.
+From Bita Require Import Model.Chunker Model.Proto Model.Archive Model.Compress Model.CloneArchive Model.CloneBytes Model.CloneHttpModel.
+From Bita Require Import Proofs.ProtoRoundTrip Proofs.RoundTrip Proofs.CloneBytesCorrect Proofs.CloneHttp Proofs.CloneHttpSafe.
 
 (* never a short, shifted or duplicated chunk: the items are exactly the first j chunks' bytes, in order,
    followed by at most one error (which ends the stream) *)
@@ -48,7 +50,32 @@ Example C08_example :
   = ([IOk [5;6;7;8]; IOk [9;10;11;12;13;14]], [(5, 10); (8, 7); (8, 7)]).
 Proof. vm_compute. reflexivity. Qed.
 
+(* a chunk stream never ends early without an error item, whatever the server does (dishonest servers included):
+   all chunks with the requested sizes, or a strict prefix followed by exactly one error *)
+Theorem C08_stream_complete_or_error : forall f retries script chunks items log,
+  read_chunks_http f retries script chunks = (items, log) ->
+  (exists ds, items = map IOk ds /\ length ds = length chunks /\ Forall2 (fun d c => lenN d = r_size c) ds chunks)
+  \/ (exists ds e, items = map IOk ds ++ [IErr e] /\ (length ds < length chunks)%nat).
+Proof. exact read_chunks_http_never_short. Qed.
+
+(* an honest but unreliable server: for every archive of the model writer, every script of answers, refused
+   connections and bodies cut anywhere (header requests included) with no more failing transfers than the retry
+   budget, the whole clone over http yields exactly the source *)
+Theorem C08_clone_over_unreliable_server :
+  forall (H comp : list N -> list N) (decomp : N -> list N -> option (list N)),
+    (forall x, lenN (H x) = 64) -> (forall x, Forall (fun b => b < 256) (H x)) ->
+    forall src o bytes retries script,
+      opts_ok o -> bytes_ok src -> lenN src < 18446744073709551616 -> lenN bytes < 18446744073709551616 ->
+      codec_ok comp decomp o -> few_chunks o src ->
+      no_collision H o src [] false [] -> stored_nonempty comp o src -> compress_model H comp src o = Ok bytes ->
+      Forall (fun it => match it with SOk | SRefuse | SCut _ => True | _ => False end) script ->
+      N.of_nat (length (filter failing script)) <= retries ->
+      exists log, http_clone H decomp bytes retries script = (Ok src, log).
+Proof. exact http_clone_unreliable_server. Qed.
+
 Print Assumptions C08_http_items_exact.
 Print Assumptions C08_retry_resumes_at_first_missing_byte.
 Print Assumptions C08_retries_suffice.
 Print Assumptions C08_io_reader_exact.
+Print Assumptions C08_stream_complete_or_error.
+Print Assumptions C08_clone_over_unreliable_server.
